@@ -78,6 +78,13 @@ Proof.
   destruct o; cbn; exact HA.
 Qed.
 
+Lemma preview_no_trace_lemma : forall (p : prog) (k : N) input c w,
+  panicked (preview (Some k) p input c w) = false ->
+  p_ctx (preview (Some k) p input c w) = c /\ p_world (preview (Some k) p input c w) = w.
+Proof.
+  intros. split; [apply preview_ctx_unchanged_lemma; assumption | apply preview_world_unchanged_lemma].
+Qed.
+
 (* after a panic the handlers are gone: the restore did not run *)
 Lemma preview_panic_handlers_lost : forall (p : prog) fire input c w,
   panicked (preview fire p input c w) = true ->
